@@ -69,9 +69,24 @@ def _init(pid, tier, batch_seed):
     return prop, _start_zygote(prop)
 
 
+def _sweep_stale_scratch():
+    """scratch directories of earlier invocations that were killed before they could clean up"""
+    import shutil
+    root = os.path.join(VERIF, '.build', 'run')
+    try:
+        now = time.time()
+        for d in os.listdir(root):
+            full = os.path.join(root, d)
+            if now - os.path.getmtime(full) > 3600:
+                shutil.rmtree(full, ignore_errors=True)
+    except OSError:
+        pass
+
+
 def _start_zygote(prop):
     """called at the same point of start-up by the batch driver and by replay, so both fork their runs from the same image"""
     from . import zygote
+    _sweep_stale_scratch()
     runmod.set_iso_prop(prop)
     zygote.register('chunk', _run_chunk)
     faulthandler.enable()
@@ -246,6 +261,11 @@ def run_check(pid, tier, batch_seed=None, nproc=None, runs=None, time_budget=Non
             exit_code = 2
     write_evidence(prop, tier, batch_seed, results, time.time() - t0, len(new_by_class), known_hit, stopped_early,
                    nproc)
+    try:
+        from . import zygote as _z
+        _z.stop()
+    except Exception:
+        pass
     ok = sum(1 for r in results if r.status == 'ok')
     print('[%s] runs=%d ok=%d skip=%d violations=%d known=%d harness_errors=%d wall=%.1fs exit=%d' %
           (pid, len(results), ok, sum(1 for r in results if r.status == 'skip'), len(violations) - sum(
